@@ -463,7 +463,9 @@ pub fn run(ctx: &Ctx) {
     for k in 0..(if thorough { 1500 } else { 300 }) {
         let x = domain_value(&mut rng, &rs);
         let palette = [0.0, -0.0, f64::NAN, 1.0, -1.0, 5e-324, -5e-324, f64::INFINITY, f64::NEG_INFINITY, x, x,
-            f64::from_bits(x.to_bits() + 1), -x, f64::from_bits(0x7ff0_0000_0000_0001), f64::from_bits(0xfff8_0000_0000_0000)];
+            f64::from_bits(x.to_bits() + 1), -x, f64::from_bits((-x).to_bits() + 1), f64::from_bits((-x).to_bits() - 1),
+            f64::MIN_POSITIVE, -f64::MIN_POSITIVE, f64::from_bits(f64::MIN_POSITIVE.to_bits() - 1), f64::MAX, f64::MIN,
+            f64::from_bits(0x7ff0_0000_0000_0001), f64::from_bits(0xfff8_0000_0000_0000)];
         let len = rng.range(2, 12) as usize;
         let ty = if k % 2 == 0 { Ty::F64 } else { Ty::Obs };
         let st = if k % 4 == 3 { rng.below(2) } else { 2 };
